@@ -423,7 +423,15 @@ def generate(repo: str):
         join_merges = True
     else:
         join_merges = False
-    hj = ast.unparse(py2v.find_method(df_tree, "BaseDataFrame", "_handle_join_column_names_only"))
+    # the helper that resolves join(on=[names]) is found through its call in join (`join_column_pairs, join_clause = self.<helper>(...)`),
+    # not by its name
+    helpers = {dotted(n.value.func).split(".", 1)[1] for n in ast.walk(jn)
+               if isinstance(n, ast.Assign) and isinstance(n.targets[0], ast.Tuple)
+               and [dotted(e) for e in n.targets[0].elts] == ["join_column_pairs", "join_clause"]
+               and isinstance(n.value, ast.Call) and (dotted(n.value.func) or "").startswith("self.")}
+    if len(helpers) != 1:
+        raise Untranslatable(f"join: the helper that resolves the key names is not called as expected ({sorted(helpers)})")
+    hj = ast.unparse(py2v.find_method(df_tree, "BaseDataFrame", helpers.pop()))
     if "join_column.expression.alias_or_name in cte.this.named_selects" in hj:
         join_key_bare = True
     elif "join_column.alias_or_name in cte.this.named_selects" in hj:
